@@ -44,7 +44,8 @@ PROPS = {
                 "C01/perft: differential divide-perft depth 2 (quick) / 2-3 (thorough). C01/perftbin: the real cmd/perft binary built from the working tree, depth 1-3 on generated roots, against the oracle's node counts. Non-trivial = distinct positions (placement, "
                 "side, rights, e.p.) where pseudo-legal != legal (pin, check evasion, king walking into attack) or a castle / e.p. / "
                 "promotion is pseudo-legally available; perft: subtree > 100 nodes. evaluations = positions judged. "
-                "One synthetic position in 25 comes from gen.ManyMoves (9-18 queens plus rooks, bishops, knights, hill-climbed for mobility; labels count positions with more than 150 / 218 / 256 pseudo-legal moves). C01/parallel: 2-8 goroutines generate the legal and pseudo-legal moves of different positions at the same time, each list judged against the rules.",
+                "One synthetic position in 25 comes from gen.ManyMoves (9-18 queens plus rooks, bishops, knights, hill-climbed for mobility; labels count positions with more than 150 / 218 / 256 pseudo-legal moves). C01/parallel: 2-8 goroutines generate the legal and pseudo-legal moves of different positions at the same time, each list judged against the rules. "
+                "C01/coldstart: at the top of every shard process, before anything else has used the repository's code, 12 goroutines released together make the first use of the board package (positions, legal moves, successors, checks, a Zobrist table of a fresh seed, boards) on 8 fixed slider-heavy positions; answers are judged against the oracle. One trial per shard; no random choice (the schedule is the operating system's). C01 reports the move lists.",
         "assumptions": COMMON_ASSUMPTIONS + ["only the side to move is judged; for e.p. the capture field may be unset or Pawn (documented 'not set')"],
         "level_text": "Exploration: tens of thousands of positions per quick run, each compared move-by-move (set equality both "
                       "directions, duplicates, legality flag, metadata) with an oracle that shares no code with the repository; "
@@ -66,7 +67,8 @@ PROPS = {
                 "for all 64 squares x 2 colours with the oracle attack relation along the main line, and the receiver with a copy taken "
                 "before. C02/synth: every legal move of synthetic positions. Non-trivial = distinct (position, move) where the move is "
                 "a castle / e.p. / promotion / double step, clears an e.p. target or changes castling rights; plus sequences >= 10 plies. "
-                "evaluations = (position, move) pairs judged.",
+                "evaluations = (position, move) pairs judged. "
+                "C02/coldstart: at the top of every shard process, before anything else has used the repository's code, 12 goroutines released together make the first use of the board package (positions, legal moves, successors, checks, a Zobrist table of a fresh seed, boards) on 8 fixed slider-heavy positions; answers are judged against the oracle. One trial per shard; no random choice (the schedule is the operating system's). C02 reports accepted/refused successors. The coordinate text of every legal move must pick out exactly that generated move (Equals both ways round).",
         "assumptions": COMMON_ASSUMPTIONS + ["e.p. target is set after every double step (the convention the repository documents and C05 uses)"],
         "level_text": "Exploration: hundreds of thousands of (position, move) pairs per quick run against the oracle successor, with "
                       "cross-view consistency and the full attack relation re-checked on incrementally derived positions so that a "
@@ -88,7 +90,8 @@ PROPS = {
                 "clocks. C07/separation: a position and one single-component change (side, one right, e.p. file, piece added/removed/"
                 "recoloured/retyped/moved) must hash differently. Non-trivial = distinct cases containing a castle, e.p., promotion, "
                 "capture-promotion or rights change (walk); every transposition pair and separation pair. evaluations = cases. "
-                "A third of the walks fork the board and operate on fork and origin alternately (both are judged after every operation: they are independent). C07/birthday: every distinct position met in 72k generated games (plus the neighbours of the final positions), hashed from scratch with one fixed table - about 140k positions per shard, capped at 400k: two different positions with one hash are reported as a C07/separation case (4e-9 for honest 64-bit keys at the cap; expected many times over for keys of 32 bits or fewer).",
+                "A third of the walks fork the board and operate on fork and origin alternately (both are judged after every operation: they are independent). C07/birthday: every distinct position met in 72k generated games (plus the neighbours of the final positions), hashed from scratch with one fixed table - about 140k positions per shard, capped at 400k: two different positions with one hash are reported as a C07/separation case (4e-9 for honest 64-bit keys at the cap; expected many times over for keys of 32 bits or fewer). "
+                "C07/coldstart: at the top of every shard process, before anything else has used the repository's code, 12 goroutines released together make the first use of the board package (positions, legal moves, successors, checks, a Zobrist table of a fresh seed, boards) on 8 fixed slider-heavy positions; answers are judged against the oracle. One trial per shard; no random choice (the schedule is the operating system's). C07 reports hash = hash from scratch and equal hashes across the goroutines.",
         "assumptions": COMMON_ASSUMPTIONS + ["hash inequality is judged up to the 2^-64 coincidence the property allows"],
         "level_text": "Exploration: ~16k push/pop histories x (up to 70 ops) per quick run over several table seeds compare the "
                       "incremental hash with the from-scratch hash after every operation; path independence and separation are "
@@ -135,7 +138,8 @@ PROPS = {
                 "flag); after EVERY operation EVERY live board must equal the top of its own stack (isolation), a take-back must give "
                 "a not-drawn result when the state before the move was not drawn, and C05's oracle judges every push (repetitions "
                 "against the common past). Non-trivial = distinct programs with >= 2 take-backs at nesting >= 2, or a fork followed "
-                "by operations on more than one board. evaluations = programs.",
+                "by operations on more than one board. evaluations = programs. "
+                "After every successful take-back the result must be not-drawn, whatever the position returned to had been flagged with (label: take-backs onto positions that had been flagged drawn).",
         "assumptions": COMMON_ASSUMPTIONS + ["boards do not take back below a fork point they share (documented precondition of Board.Fork)",
                                              "after a take-back from a state that was already flagged drawn the result may be either (the property only promises 'not drawn' when it was not drawn before)"],
         "level_text": "Exploration with a model: stateful operation sequences over several forked boards, an inverse (snapshot "
@@ -159,7 +163,8 @@ PROPS = {
                 "move number +1 after each Black move, both restored by take-back). Non-trivial = distinct positions with an e.p. "
                 "square, partial rights, Black to move or unusual clocks (roundtrip); programs containing castling, capture + "
                 "take-back, or a Black-to-move set-up (engine). evaluations = cases. "
-                "C14/concurrent: one goroutine plays a generated line forward and takes it back 20-120 times while 1-4 goroutines call Engine.Position(); every FEN reported must be the standard FEN of one of the states of that game (the engine serialises its methods).",
+                "C14/concurrent: one goroutine plays a generated line forward and takes it back 20-120 times while 1-4 goroutines call Engine.Position(); every FEN reported must be the standard FEN of one of the states of that game (the engine serialises its methods). "
+                "C14/racingmoves: two moves offered by two goroutines at the same moment (20-200 repetitions per case); the reported FEN must be the outcome of playing the accepted moves in one of the two orders.",
         "assumptions": COMMON_ASSUMPTIONS + ["canonical FEN = the oracle's encoder (castling letters KQkq in that order, '-' when empty)"],
         "level_text": "Exploration: 40k generated positions with free clocks through both round-trips, and 8k engine programs "
                       "(~300k operations) compared with an independently maintained standard FEN after every step.",
@@ -184,7 +189,8 @@ PROPS = {
                 "kind and colour), eval.FindPins against king and queen (set of attacker/pinned/target triples) vs their geometric "
                 "definitions. Non-trivial: every (piece, square, line occupancy) of the table part is a distinct case by construction; "
                 "derived = distinct positions with a check, a pin or a multiply-attacked square. "
-                "C06/derived also asks IsAttackedBy / IsDefendedBy with four position-derived lists of piece kinds in shuffled order per position (all 64 squares, both colours). C06/parallel: 2-8 goroutines evaluate capture sets, pins, piece squares and legal moves of different positions at the same time; each must equal the definition (the queries are pure).",
+                "C06/derived also asks IsAttackedBy / IsDefendedBy with four position-derived lists of piece kinds in shuffled order per position (all 64 squares, both colours). C06/parallel: 2-8 goroutines evaluate capture sets, pins, piece squares and legal moves of different positions at the same time; each must equal the definition (the queries are pure). "
+                "C06/coldstart: at the top of every shard process, before anything else has used the repository's code, 12 goroutines released together make the first use of the board package (positions, legal moves, successors, checks, a Zobrist table of a fresh seed, boards) on 8 fixed slider-heavy positions; answers are judged against the oracle. One trial per shard; no random choice (the schedule is the operating system's). C06 reports IsChecked.",
         "assumptions": COMMON_ASSUMPTIONS + ["pins are judged for targets king and queen (the kinds the property names)"],
         "level_text": "The finite table part is enumerated completely on every run (about 1.6M distinct line occupancies, ~6M "
                       "lookups, seconds); the derived queries are explored on ~16k generated positions per quick run against "
@@ -211,7 +217,8 @@ PROPS = {
                 "opponent's move, arbitrary text): Engine.Move succeeds iff the lower-cased string is the coordinate text of an "
                 "oracle-legal move; on rejection Engine.Position() and every board observable are unchanged. Thorough adds native "
                 "coverage-guided fuzzing of the same three oracles. Non-trivial = distinct strings that pass the first syntactic gate "
-                "(six space-separated fields / 4-5 runes), i.e. reach the arithmetic. evaluations = strings tried.",
+                "(six space-separated fields / 4-5 runes), i.e. reach the arithmetic. evaluations = strings tried. "
+                "C19/parallel: 2-8 goroutines decode different strings 200 times each at the same time; each must decode as it does alone. C19/engineseq contains Reset with arbitrary strings (hostile FEN text, well-formed FENs of positions with the opponent in check, valid FENs): rejected means nothing changes, accepted means the standard form of the string is the game.",
         "assumptions": COMMON_ASSUMPTIONS + ["both letter cases of file and promotion letters denote the same move (the parsers accept both by design)"],
         "level_text": "Exploration: ~140k generated strings per quick run, structured to pass the syntactic gates and reach the "
                       "square arithmetic, each judged by a round-trip / well-formedness / legality oracle; thorough adds ~5 min of "
@@ -240,7 +247,8 @@ PROPS = {
                 "reports identical before/after (truthful lazy adjudication of a root without moves allowed) and every legal root move "
                 "played afterwards reports the same as on a board never searched. Non-trivial = distinct (root, history, config, depth) "
                 "with depth >= 3, or a mate / stalemate / draw node inside the tree, or a mate-valued root. Over-budget and sticky-"
-                "draw roots are discarded and counted. evaluations = searches compared.",
+                "draw roots are discarded and counted. evaluations = searches compared. "
+                "Configuration synth-quietnochecks: a selective main search whose exploration predicate inspects the board with the move made (captures, and quiet moves that do not give check).",
         "assumptions": COMMON_ASSUMPTIONS + ["roots whose draw flag was set by an earlier position of the game (not the current one) are skipped: the property leaves their value open",
                                              "the reference calls the repository's evaluator/exploration functions (the property says 'same explored moves, same leaf evaluation'); rules, draw detection, score order and tree walk are independent"],
         "level_text": "Exploration: thousands of searches per quick run, each compared with an independent exhaustive negamax; "
@@ -265,7 +273,8 @@ PROPS = {
                 "v <= r <= a if v <= a, b <= r <= v if v >= b. C13/quiescence: full-window quiescence on generated and terminal "
                 "positions never rates a position with a legal move below its static evaluation and rates checkmate / stalemate "
                 "exactly. Non-trivial = distinct (root, depth, config, window) with a finite mate-distance bound or a bound adjacent "
-                "or equal to v; quiescence cases all count. evaluations = windowed searches.",
+                "or equal to v; quiescence cases all count. evaluations = windowed searches. "
+                "Cases with a table run a full-window search of the same root on the same table after the windowed one; it must return the true value.",
         "assumptions": COMMON_ASSUMPTIONS + ["same reference and discards as C03"],
         "level_text": "Exploration: ~12k windowed searches per quick run judged by the three-way clip relation against an "
                       "independent exhaustive value, with windows aimed at the places where off-by-one-ply errors show (bounds one "
@@ -359,7 +368,8 @@ PROPS = {
                 "consecutive). C15/timecontrol: TimeControl.Limits over clocks 0..24 h, moves-to-go in {-1,0,1,2,3,10,40,10000}, both "
                 "colours: 0 <= soft <= hard <= time left. Non-trivial: every iterative case (labelled by how it ended: limit / mate / "
                 "halt / halt-ungated); time-control cases with moves-to-go != 0 or < 1 s left. evaluations = cases. "
-                "C15/again: second and later analyses of an engine with Hash 0-2 MB, gated iteration by iteration: after a completed analysis of depth D (and 0-2 moves of its variation played) an analysis with limit L searches and reports depth 1, 2, ... in order and ends by itself exactly at L (or at a forced mate it reports itself); non-trivial = the first analysis reached depth >= 2.",
+                "C15/again: second and later analyses of an engine with Hash 0-2 MB, gated iteration by iteration: after a completed analysis of depth D (and 0-2 moves of its variation played) an analysis with limit L searches and reports depth 1, 2, ... in order and ends by itself exactly at L (or at a forced mate it reports itself); non-trivial = the first analysis reached depth >= 2. "
+                "A quarter of the C15/iterative cases set a (generous) time-control option; a gated halt must cancel the context of the pending iteration within 5 s. C15/clock: 0-400 ms on both clocks with depth 1 held at the gate for 0-25 ms (the hard limit expires during depth 1): depth 1 must still be searched, reported faithfully and returned by Halt(). C15/halttwice: iteration k completes while a first Halt() is in progress (held at the gate's exit), is then reported; a second Halt() must not return anything shallower. C15/timecontrol draws moves-to-go over the whole int range (integer-width boundaries included).",
         "assumptions": COMMON_ASSUMPTIONS + ["node counts are not compared (the property names score and PV)", "liveness is judged with a 30 s grace period"],
         "level_text": "Exploration with a harness-owned schedule: ~3k analyses per quick run, every reported depth compared with "
                       "a direct search and the stop/halt rules checked at generated halt points; 40k time-control parameter sets.",
@@ -383,7 +393,8 @@ PROPS = {
                 "search history must report identical final (score, PV, nodes) in each of 1-3 rounds; Engine.Position() and every "
                 "Engine.Board() observable are identical before and after an analysis run to completion and after a halted "
                 "unlimited analysis. Non-trivial = distinct cases with depth >= 2 and a root with history (deterministic), depth >= 2 "
-                "(engine). evaluations = cases (each 6+ searches).",
+                "(engine). evaluations = cases (each 6+ searches). "
+                "C18/deterministic repeats a search restricted to a line (search.Context.Ponder) with the very same context: equal results, context unchanged. C18/otherengines: the same engine alone vs. with another engine (Hash 1-256 MB) analysing before or alongside.",
         "assumptions": COMMON_ASSUMPTIONS + ["searches are repeated on fresh forks of the same game state, as the engine does",
                                              "with noise on, only the last report of a finished analysis is compared (the PV channel keeps the latest report only)"],
         "level_text": "Exploration: ~4k search cases x 6-9 searches and 2.5k engine cases per quick run; metamorphic relations "
@@ -411,7 +422,8 @@ PROPS = {
                 "answering isready on a valid command is a violation. Non-trivial = distinct scripts of >= 2 commands in which at "
                 "least one command textually continues the previous one (the driver's continuation shortcut is taken). "
                 "evaluations = scripts. "
-                "Asides: setoption (Hash, Noise, Depth, OwnBook, Ponder, unknown names, no arguments), debug, register, stop and unknown words are sent between position commands; the engine's game must stay the one the most recent position command describes (isready is interleaved after every command anyway).",
+                "Asides: setoption (Hash, Noise, Depth, OwnBook, Ponder, unknown names, no arguments), debug, register, stop and unknown words are sent between position commands; the engine's game must stay the one the most recent position command describes (isready is interleaved after every command anyway). "
+                "One case in six attaches the driver to an engine that was already used through its API (a second session on the same engine).",
         "assumptions": COMMON_ASSUMPTIONS + ["liveness judged with a 20 s grace period after a protocol barrier"],
         "level_text": "Exploration: ~5k command scripts per quick run, with a model-based oracle (the game the last command "
                       "describes) and a metamorphic one (incrementally extended engine vs fresh set-up of the same command).",
@@ -437,7 +449,8 @@ PROPS = {
                 "position has no legal move; a bestmove still missing 20 s after the search must have ended is reported; at quit the "
                 "total number of bestmove lines equals the number of go commands. C04/blackbox: the real cmd/* binaries built from the "
                 "working tree, driven over pipes with the same oracle. Non-trivial = distinct scripts in which a searched position "
-                "has more than one legal move or a go is repeated on the same position. evaluations = scripts.",
+                "has more than one legal move or a go is repeated on the same position. evaluations = scripts. "
+                "Go lines include moves-to-go at the integer-width boundaries, negative moves-to-go, and non-positive move times (which are no move time).",
         "assumptions": COMMON_ASSUMPTIONS + ["'ended' is decided by protocol (stop + isready/readyok processed, or the engine's own bestmove), with a 20 s grace period for liveness",
                                              "clock and movetime variants use real timers; the verdict depends only on count and legality of the answer"],
         "level_text": "Exploration: ~2.4k scripts (~6k go commands) per quick run in-process plus black-box runs of the real "
@@ -473,7 +486,8 @@ PROPS = {
                 "held search afterwards must not blow up. Non-trivial = distinct scripts in which a go, stop or isready arrived "
                 "while a search was held, a held iteration was released singly, or shutdown happened with a search in flight; all "
                 "ungated scripts with a go. evaluations = scripts. "
-                "Odd clocks (fallen flags, one clock only, moves-to-go without clocks) and malformed position lines ending in a pseudo-legal-but-illegal, non-pseudo-legal or unparsable move (the driver must go on or shut down) are part of the scripts. The quick tier ends with a short pass (a tenth of the scripts, other seeds) on the race-instrumented binary: a race report with a math/rand.(*Rand) frame is a violation (the thorough tier runs entirely on that binary).",
+                "Odd clocks (fallen flags, one clock only, moves-to-go without clocks) and malformed position lines ending in a pseudo-legal-but-illegal, non-pseudo-legal or unparsable move (the driver must go on or shut down) are part of the scripts. The quick tier ends with a short pass (a tenth of the scripts, other seeds) on the race-instrumented binary: a race report with a math/rand.(*Rand) frame is a violation (the thorough tier runs entirely on that binary). "
+                "Scripts with a move-time go end with a goroutine census: 400 ms after shutdown no goroutine may be inside the driver package.",
         "assumptions": COMMON_ASSUMPTIONS + ["the Go scheduler between gates is not owned by the harness", "race-detector reports in these runs are recorded as diagnostics (C17 is where race freedom is demanded), with one exception: concurrent use of a single math/rand.Rand, which is documented as unsafe and panics (index out of range) under contention - a crash waiting for its schedule - is a violation",
                                              "lines the driver answers by a deliberate shutdown (unparsable go arguments) end the script: clean closure is required"],
         "level_text": "Exploration with a harness-owned schedule for the orderings that matter (search completion vs command "
@@ -505,7 +519,8 @@ PROPS = {
                 "exact model of the replacement policy (accept iff resident value <= new value), Read and Used. Non-trivial = "
                 "distinct programs in which at least two goroutines write the same hash AND two write different hashes of one "
                 "slot (concurrent); programs that leave an entry (sequential). evaluations = programs (x rounds). "
-                "A fifth of the tagged stores carry no move (what the searches store for leaves and quiescence results).",
+                "A fifth of the tagged stores carry no move (what the searches store for leaves and quiescence results). "
+                "The key pool contains the hash 0 and keys that differ only above bit 31 or in bit 63.",
         "assumptions": COMMON_ASSUMPTIONS + ["the interleaving is not owned by the harness (stress + race detector + history invariants); a yield hook inside the CAS loop was deliberately not added",
                                              "table sizes >= 32 bytes"],
         "level_text": "Stress exploration under the race detector: ~6k concurrent programs x up to 8 rounds per quick run with "
@@ -534,7 +549,8 @@ PROPS = {
                 "their successors is legal in the position it is keyed on; engine.NewBook over generated legal opening lines (incl. "
                 "transposing lines) offers the line move and only legal moves at every position of every line, and refuses a line "
                 "whose last move is illegal. Non-trivial = distinct boards with bare king / in check / castling or promotion "
-                "available / no legal move / a history; book cases with at least one position. evaluations = cases.",
+                "available / no legal move / a history; book cases with at least one position. evaluations = cases. "
+                "C20/books: lines ending in an en-passant capture; every book position with an en-passant target is also looked up as its twin without the target - replies must be legal where they are offered. C20/engines evaluates QueenStar positions (a queen with open lines ending on enemy men) and many-move boards.",
         "assumptions": COMMON_ASSUMPTIONS + ["colour symmetry is judged with exact equality (the three evaluations are quantised)"],
         "level_text": "Exploration: ~6k boards with histories per quick run through every evaluator and filter of the three "
                       "historical engines, a metamorphic mirror relation for colour-blindness, and ~3k generated opening books.",
